@@ -20,7 +20,7 @@
 (* TLC's counterexample for the code as found (F15).                       *)
 (***************************************************************************)
 EXTENDS Raster, Json
-CONSTANTS MaxN, BoxStride, CatStride, PairStride, SameStride, AttrStride, TripleStride, ValueStride, ShapeFrom
+CONSTANTS MaxN, BoxStride, CatStride, PairStride, SameStride, AttrStride, TripleStride, ValueStride, PointStride, ShapeFrom
 VARIABLES c, pc, k, rast, res
 vars == <<c, pc, k, rast, res>>
 
@@ -71,6 +71,16 @@ IvD(td)  == {D(td, "iv", p[1], 0, p[2], 0, 0, 0) : p \in Pairs(TAxis(Tpl(td)))}
 TsD(td)  == {D(td, "ts", s, 0, 0, 0, 0, 0) : s \in Ticks(TAxis(Tpl(td)))}
 \* no geometry at all: a = index of the fill value, b = 1 scalar value / 0 empty value list
 NoneD(td) == {D(td, "none", q, sc, 0, 0, 0, 0) : q \in 1..3, sc \in 0..1}
+DenseRings == <<<<<<0, 3>>, <<2, 0>>, <<4, 0>>, <<4, 4>>, <<0, 4>>>>,
+                <<<<0, 2>>, <<2, 3>>, <<4, 3>>, <<4, 4>>, <<0, 4>>>>,
+                <<<<0, 3>>, <<1, 1>>, <<4, 1>>, <<4, 4>>, <<0, 4>>>>>>
+\* zero-extent and one-bin shapes in bin 0 of either axis: points in the first column / first row, short lines inside them
+PtD(td)  == LET ta == TAxis(Tpl(td))  fa == FAxis(Tpl(td)) IN
+            {D(td, "pt", t, f, 0, 0, 0, 0) : t \in {ta.a, ta.a + 1}, f \in Ticks(fa)} \cup {D(td, "pt", t, f, 0, 0, 0, 0) : t \in Ticks(ta), f \in {fa.a, fa.a + 1}}
+LnD(td)  == LET ta == TAxis(Tpl(td))  fa == FAxis(Tpl(td)) IN
+            {D(td, "ln", ta.a, q[1], ta.a + ta.s - 1, q[2], 0, 0) : q \in Pairs(fa)} \cup {D(td, "ln", p[1], fa.a, p[2], fa.a + fa.s - 1, 0, 0) : p \in Pairs(ta)}
+\* densely traced polygons (more than 32 coordinates) whose edges pass close to cell centres: 4 x 4 templates only
+DenseD(td) == IF td.T = 4 /\ td.F = 4 THEN {D(td, "dense", q, 0, 0, 0, 0, 0) : q \in 1..Len(DenseRings)} ELSE {}
 CatD(td) == {D(td, "cat", i, m, 0, 0, 0, 0) : i \in 1..Len(Cat), m \in 1..2}
 \* a time coordinate of the box equals one of its frequency coordinates as a number and falls into a different bin there
 Coincide(y) == LET tp == Tpl([y EXCEPT !.su = 1]) IN
@@ -91,6 +101,10 @@ Descriptors ==
          \cup  {x \in TsD(td) : Hash(x) % 2 = 0}
          \cup  {x \in ct : Hash(x) % CatStride = 0}
          \cup  NoneD(td)
+         \cup  {x \in TsD(td) : x.a \in {Tpl(td).t0, Tpl(td).t0 + 1}}                  \* a time stamp in the FIRST time bin, always
+         \cup  {x \in PtD(td) : Hash(x) % PointStride = 0}
+         \cup  {x \in LnD(td) : Hash(x) % (3 * PointStride) = 0}
+         \cup  DenseD(td)
          \cup  {[x EXCEPT !.g2 = j] : x \in {y \in bx : Hash(y) % PairStride = 1}, j \in 1..2}
          \cup  {[x EXCEPT !.g2 = j] : x \in {y \in ct : Hash(y) % (2 * CatStride) = 1}, j \in 1..2}
          \cup  {[x EXCEPT !.g2 = j, !.mm = m] : x \in {y \in bx : y.a < y.d /\ y.b < y.e /\ Hash(y) % (4 * PairStride) = 2},
@@ -128,11 +142,26 @@ ScaleG(g, m) ==
     [] g.type \in {"LineString", "MultiPoint"} -> G(g.type, ScPts(x, m))
     [] g.type \in {"Polygon", "MultiLineString"} -> G(g.type, [i \in DOMAIN x |-> ScPts(x[i], m)])
     [] g.type = "MultiPolygon" -> G(g.type, [i \in DOMAIN x |-> [j \in DOMAIN x[i] |-> ScPts(x[i][j], m)]])
+\* Index-space outlines (bin indices 0..4) whose slanted edges pass within 0.15 .. 0.3 bin of a cell centre, traced tick by
+\* tick along their axis-parallel edges, which run 6 ticks beyond the template (all of that maps to index 4): 40 - 60
+\* coordinates.  The mapped shape is the five-cornered outline; CentreRule decides every cell but those cut through the centre.
+TickOf(ax, i) == IF i < 4 THEN Coord(ax, i + 1) ELSE Coord(ax, ax.n) + ax.s + 6       \* index 4 = beyond the last bin
+\* the points from a (inclusive) to b (exclusive), every tick when the edge is axis-parallel
+Trace(a, b) ==
+    IF a[1] = b[1] /\ a[2] # b[2] THEN [q \in 1..Abs(b[2] - a[2]) |-> <<a[1], a[2] + (IF b[2] > a[2] THEN q - 1 ELSE 1 - q)>>]
+    ELSE IF a[2] = b[2] /\ a[1] # b[1] THEN [q \in 1..Abs(b[1] - a[1]) |-> <<a[1] + (IF b[1] > a[1] THEN q - 1 ELSE 1 - q), a[2]>>]
+    ELSE <<a>>
+DensePoly(tp, ring) ==
+    LET v == [q \in 1..5 |-> <<TickOf(TAxis(tp), ring[q][1]), TickOf(FAxis(tp), ring[q][2])>>]
+    IN  G("Polygon", <<Trace(v[1], v[2]) \o Trace(v[2], v[3]) \o Trace(v[3], v[4]) \o Trace(v[4], v[5]) \o Trace(v[5], v[1]) \o <<v[1]>>>>)
 First(x) ==
     CASE x.gk = "box" -> G("BoundingBox", <<x.a, x.b, x.d, x.e>>)
       [] x.gk = "iv"  -> G("TimeInterval", <<x.a, x.d>>)
       [] x.gk = "ts"  -> G("TimeStamp", x.a)
       [] x.gk = "cat" -> ScaleG(Cat[x.a], x.b)
+      [] x.gk = "pt"  -> G("Point", <<x.a, x.b>>)
+      [] x.gk = "ln"  -> G("LineString", <<<<x.a, x.b>>, <<x.d, x.e>>>>)
+      [] x.gk = "dense" -> DensePoly(Tpl(x), DenseRings[x.a])
 \* second geometry of a list: a box over the middle of the template, or a right triangle whose hypotenuse runs
 \* through cell centres when the template is square
 \* j = 3: a box whose TIME coordinates are the first box's FREQUENCY coordinates (same numbers when su = 1)
@@ -254,6 +283,12 @@ LawInIsTouched == LawAt => LET cs == Case IN \A j \in 1..NG(cs) : Areal(cs.geoms
 \* the third box of a list (A, B, A') lies in the same bins as the first under every reading
 LawSameBins == (LawAt /\ c.g3 # 0) => LET cs == Case IN
     \A rr \in RR : BoxIdx(cs.tpl, rr, BoxOf(cs.geoms[3])) = BoxIdx(cs.tpl, rr, BoxOf(cs.geoms[1]))
+\* a dense outline has more than 32 coordinates and maps onto the five-cornered outline
+LawDense == (LawAt /\ c.gk = "dense") => LET cs == Case  ring == cs.geoms[1].coordinates[1] IN
+    /\ Len(ring) > 32 /\ Len(ring) <= 80
+    /\ LET img == {MapPt(cs.tpl, CC, ring[q]) : q \in DOMAIN ring}
+           cor == [q \in 1..6 |-> LET p == DenseRings[c.a][IF q = 6 THEN 1 ELSE q] IN <<2 * p[1], 2 * p[2]>>]
+       IN  Range(cor) \subseteq img /\ \A p \in img : OnPath(cor, p)                  \* all corners, and nothing off the outline
 LawSatisfiable == LawAt => LET cs == Case IN \A a \in BOOLEAN : LET tb == Tab(cs, a) IN
     \A cell \in CellsOf(cs.tpl) : Allowed(cs, tb, cell) # {}
 =============================================================================
